@@ -21,7 +21,7 @@ DB_ARGS = [None, "db1", "DB1", "Db1", "DB2", "db2"]
 SCHEMA_ARGS = [None, "s1", "S1", "s1X".replace("X", ""), "S2", "information_schema", "INFORMATION_SCHEMA"]
 
 SPEC = {
-    "runs": {"quick": 600, "thorough": 40000},
+    "runs": {"quick": 600, "thorough": 30000},
     "wall": {"quick": 600, "thorough": 7200},
     "chunk": 10,
     "level": "exploration",
